@@ -266,7 +266,7 @@ def golden_history(bp, tog):
     return {"id": f"golden:{bp}:{state_key(tog)}", "arm": "golden", "golden": True, "init_cache": "nodep",
             "init_toggles": {"p0": list(tog)},
             "steps": [{"op": "exec", "proj": "p0", "mode": "generate", "bp": bp, "hash_seed": 0, "diag": "diag.dot",
-                       "timeout": 1800}]}
+                       "timeout": 3 * W.DEFAULT_TIMEOUT}]}
 
 
 def store_golden(ctx, slot, bp, tog, ex):
@@ -275,8 +275,8 @@ def store_golden(ctx, slot, bp, tog, ex):
     W.rmtree(tmp)
     os.makedirs(tmp)
     files = {}
-    if ex["timed_out"]:
-        harness_error(f"golden run of {bp}/{state_key(tog)} timed out")
+    # A golden run that does not terminate gives no reference verdict either (exit "timeout"); the
+    # ordinary histories of the same blueprint report it as a C09 `terminates` violation.
     # An abnormal end (panic, signal) of the clean-world run is recorded as it is: it gives no reference
     # verdict, and the same abnormal end shows up in ordinary histories as a C09 violation.
     if ex["exit"] == 0:
@@ -286,7 +286,7 @@ def store_golden(ctx, slot, bp, tog, ex):
             files[rel] = sha256_bytes(data)
             with open(os.path.join(tmp, rel.replace("/", "__")), "wb") as f:
                 f.write(data)
-    meta = {"bp": bp, "toggles": list(tog), "exit": ex["exit"] if ex["signal"] is None else -ex["signal"], "files": files, "n_errors": ex["n_errors"],
+    meta = {"bp": bp, "toggles": list(tog), "exit": "timeout" if ex["timed_out"] else (ex["exit"] if ex["signal"] is None else -ex["signal"]), "files": files, "n_errors": ex["n_errors"],
             "wall_s": ex["wall_s"], "stderr_tail": ex["stderr"][-1500:]}
     with open(os.path.join(tmp, "golden.json"), "w") as f:
         json.dump(meta, f, indent=1)
@@ -817,8 +817,10 @@ def cmd_check(prop, tier):
         "wall_s": round(wall, 1),
         "violations": n_viol,
     }
-    os.makedirs(os.path.join(VERIF, "evidence"), exist_ok=True)
-    with open(os.path.join(VERIF, "evidence", f"{prop}.json"), "w") as f:
+    # evidence and replays go under VERIF_DIR when set (mutant evaluations must not touch the committed files)
+    out_root = os.environ.get("VERIF_DIR", VERIF)
+    os.makedirs(os.path.join(out_root, "evidence"), exist_ok=True)
+    with open(os.path.join(out_root, "evidence", f"{prop}.json"), "w") as f:
         json.dump(evidence, f, indent=1)
     results_digest = sha256_bytes(json.dumps([exec_digest(results[h["id"]])[0] for h in hists]).encode())[:16]
     verdict_digest = sha256_bytes(json.dumps(sorted(f"{x['property']}|{x['invariant']}|{x['signature']}|{x['history']}|{x['exec']}"
